@@ -14,9 +14,10 @@ PENDING_REASON = "check not built yet in this round (work in progress; DESIGN.md
 
 def main():
     checks, na = [], []
+    claimed = set((HERE / "claimed.txt").read_text().split())
     for pid in ALL:
         f = HERE / "props" / f"{pid.lower()}.py"
-        if not f.exists():
+        if not f.exists() or pid not in claimed:
             na.append({"property_id": pid, "reason": PENDING_REASON})
             continue
         m = importlib.import_module(f"props.{pid.lower()}")
